@@ -12,13 +12,21 @@ mod ops;
 mod support;
 mod writers;
 
-/// The sources of the macro crate, included by path so that the real code runs.
+/// The sources of the macro crate, included by path so that the real code runs.  They sit at
+/// the crate root under their own names, so that `crate::command::…`, `crate::tree::…` and
+/// `crate::CommandDefinition` resolve exactly as they do inside the macro crate.
+#[allow(dead_code)]
+#[path = "/repo/microscpi-macros/src/command.rs"]
+pub mod command;
+#[allow(dead_code)]
+#[path = "/repo/microscpi-macros/src/tree.rs"]
+pub mod tree;
+
+/// Old name of the two modules, kept for the ops.
 #[allow(dead_code)]
 mod macro_src {
-    #[path = "/repo/microscpi-macros/src/command.rs"]
-    pub mod command;
-    #[path = "/repo/microscpi-macros/src/tree.rs"]
-    pub mod tree;
+    pub use crate::command;
+    pub use crate::tree;
 }
 
 /// `tree.rs` of the macro crate does `use crate::CommandDefinition;` and needs
@@ -359,6 +367,26 @@ fn main() {
     // Panics are reported as the result line `PANIC`, nothing else.
     std::panic::set_hook(Box::new(|_| {}));
 
+    // Watchdog: an op that runs longer than the limit (the library spins without calling the
+    // transport, so the adapter-call budget cannot stop it) ends the process with exit code 3;
+    // everything printed before that op has been flushed, and the driver script records HANG
+    // for it and resumes after it.
+    static OP_START_MS: std::sync::atomic::AtomicU64 = std::sync::atomic::AtomicU64::new(0);
+    let t0 = std::time::Instant::now();
+    {
+        let limit_ms: u64 = std::env::var("HARNESS_OP_LIMIT_MS").ok().and_then(|v| v.parse().ok()).unwrap_or(4000);
+        std::thread::spawn(move || loop {
+            std::thread::sleep(std::time::Duration::from_millis(100));
+            let started = OP_START_MS.load(std::sync::atomic::Ordering::Relaxed);
+            if started != 0 {
+                let now = t0.elapsed().as_millis() as u64 + 1;
+                if now.saturating_sub(started) > limit_ms {
+                    std::process::exit(3);
+                }
+            }
+        });
+    }
+
     let stdin = std::io::stdin();
     let stdout = std::io::stdout();
     let mut out = std::io::BufWriter::with_capacity(1 << 16, stdout.lock());
@@ -388,13 +416,16 @@ fn main() {
             Ok(line) => {
                 // Everything printed so far must survive an abort inside the op.
                 let _ = out.flush();
-                match catch_unwind(AssertUnwindSafe(|| handle(line))) {
+                OP_START_MS.store(t0.elapsed().as_millis() as u64 + 1, std::sync::atomic::Ordering::Relaxed);
+                let r = match catch_unwind(AssertUnwindSafe(|| handle(line))) {
                     Ok(result) => result,
                     Err(_) => {
                         alloccount::reset();
                         String::from("PANIC")
                     }
-                }
+                };
+                OP_START_MS.store(0, std::sync::atomic::Ordering::Relaxed);
+                r
             }
         };
         if out.write_all(result.as_bytes()).is_err() || out.write_all(b"\n").is_err() {
